@@ -30,9 +30,20 @@ func idSweep(full bool, f func(m model.Message) bool) {
 	h := idSweepHeader()
 	emit := func(i int, p model.Payload) bool {
 		m := model.Message{Header: h, Payloads: []model.Payload{p}}
-		if i%5 == 3 {
+		switch i % 5 {
+		case 3:
 			// not the last payload of the chain
 			m.Payloads = append(m.Payloads, model.Payload{Kind: model.KNonce, Data: model.Bytes{byte(i), 7}})
+		case 1:
+			// not the first payload either, in the first messages of an exchange (exchange types 34..37, message id 0 or 1,
+			// request and response): what a rule about "the first payload of an IKE_SA_INIT request" would look at
+			m.Payloads = []model.Payload{{Kind: model.KNonce, Data: model.Bytes{byte(i), 9}}, p, {Kind: model.KVendor, Data: model.Bytes{1}}}
+			m.Header.Exchange = uint8(34 + (i/5)%4)
+			m.Header.MsgID = uint32((i / 20) % 2)
+			m.Header.Flags = []uint8{0x08, 0x20, 0x00, 0x28}[(i/40)%4]
+			if (i/160)%2 == 1 {
+				m.Header.RSPI = 0
+			}
 		}
 		return f(m)
 	}
@@ -72,6 +83,38 @@ func idSweep(full bool, f func(m model.Message) bool) {
 			}
 			for _, val := range vals {
 				if !emit(v, model.Payload{Kind: model.KCP, CP: &model.CP{Type: uint8(1 + v%4), Attrs: []model.CPAttr{{Type: t, Value: val}}}}) {
+					return
+				}
+			}
+		}
+	}
+	// the notify types of the IANA registry (error types 1..47, status types 16384..16450) and of TS 24.502, each in every
+	// header context a rule about "the first messages of an exchange" could look at, at the front and further down the chain
+	var known []uint16
+	for v := 1; v <= 47; v++ {
+		known = append(known, uint16(v))
+	}
+	for v := 16384; v <= 16450; v++ {
+		known = append(known, uint16(v))
+	}
+	known = append(known, 0, 8191, 8192, 16383, 40959, 40960, 55500, 55501, 55502, 55503, 55504, 55505, 55506, 55507, 65535)
+	for _, ty := range known {
+		for ctx := 0; ctx < 64; ctx++ {
+			m := model.Message{Header: h}
+			m.Header.Exchange = uint8(34 + ctx%4)
+			m.Header.MsgID = uint32((ctx / 4) % 2)
+			m.Header.Flags = []uint8{0x08, 0x20, 0x00, 0x28}[(ctx/8)%4]
+			if (ctx/32)%2 == 1 {
+				m.Header.RSPI = 0
+			}
+			n := model.Notify{Type: ty, Data: pat(8+int(ty)%9, byte(ctx))}
+			m.Payloads = []model.Payload{{Kind: model.KNonce, Data: model.Bytes{byte(ctx), 9}}, {Kind: model.KNotify, Notify: &n}, {Kind: model.KVendor, Data: model.Bytes{1}}}
+			if !f(m) {
+				return
+			}
+			if full || ctx%3 == 0 {
+				m.Payloads = m.Payloads[1:]
+				if !f(m) {
 					return
 				}
 			}
